@@ -658,6 +658,13 @@ func (e *ex) Do(op string) core.Result {
 		return runConc(f[1:])
 	case f[0] == "alias" && len(f) == 1:
 		return runAlias()
+	case f[0] == "gate" && len(f) == 3:
+		seed, e1 := strconv.ParseUint(f[1], 10, 64)
+		n, e2 := strconv.Atoi(f[2])
+		if e1 != nil || e2 != nil || n < 1 || n > 8 {
+			return core.Result{Impl: "bad-op"}
+		}
+		return runGate(seed, n)
 	case (f[0] == "req" || f[0] == "res") && len(f) == 2:
 		impl, fail, sig := e.s.apply(f[0], f[1], plainMsg)
 		return core.Result{Impl: impl, Fail: fail, Sig: sig}
@@ -837,6 +844,9 @@ func (P) Nontrivial(ops []string, impl []string) bool {
 				ks = append(ks, k)
 			}
 			scan(ks, strings.Split(impl[i], "|"))
+			continue
+		}
+		if f[0] == "gate" {
 			continue
 		}
 		if f[0] == "conc" || f[0] == "hpark" {
